@@ -243,6 +243,10 @@ def _run_nonsym(case):
         data = np.asarray(BiLinearForm(lambda u, v: (u.grad @ A).dot(v.grad)).Integrate_e(field))
         dN = np.asarray(g.Get_dN_e_pg(mt))  # (Ne, nPg, dim, nPe)
         M = np.einsum("ep,epki,kl,eplj->eij", wJ, dN, A, dN)
+        # the built-in anisotropic-diffusion operator with the SAME non-symmetric tensor: same array as the user form (not its transpose)
+        from EasyFEA.FEM import Operators
+
+        op = np.asarray(Operators.Bilinear.GradU_A_GradV(g, A, 1.0, mt), dtype=float)
     else:
         R = r.normal(size=(d, d))
         R = R + 2.0 * np.triu(np.abs(R), 1)
@@ -262,6 +266,11 @@ def _run_nonsym(case):
     e2 = np.abs(data - np.swapaxes(M, 1, 2)).max() / sc if data.shape == M.shape else np.inf
     if asym < 1e-3:
         return {"violations": [], "skipped": "reference turned out symmetric", "fingerprint": "sym", "nontrivial": False}
+    if form == "gradAgrad" and (op.shape != data.shape or np.abs(op - data).max() / sc > 1e-11):
+        eo = np.abs(op - data).max() / sc if op.shape == data.shape else np.inf
+        et_ = np.abs(op - np.swapaxes(data, 1, 2)).max() / sc if op.shape == data.shape else np.inf
+        v.append(viol("nonsymmetric_operator", f"gradAgrad on {et}/{case['mesh']}: Operators.Bilinear.GradU_A_GradV with a non-symmetric A differs from the user form "
+                                               f"grad(u).A.grad(v) by {eo:.2e} (from its transpose by {et_:.2e})", **key))
     if min(e1, e2) > 1e-11:
         v.append(viol("nonsymmetric_form", f"{form} on {et}/{case['mesh']}: Integrate_e is neither the directly integrated array (rel err {e1:.2e}) nor its transpose ({e2:.2e}); "
                                            f"asymmetry of the reference {asym:.2f}", **key))
@@ -322,13 +331,18 @@ def _run_moved(case):
             conn = np.asarray(g.connect, dtype=int)
             return _scatter(Ke, conn, 1, g.Ncoords, True), _scatter(Fe.reshape(g.Ne, g.nPe, 1), conn, 1, g.Ncoords, False).ravel()
 
-        stages = ["initial", mv]
+        stages = ["initial", mv, "thickness"]
         obs = []
+        th = 1.0
         for st in stages:
-            if st != "initial":
+            if st == mv:
                 _apply_move(mesh, mv, r)
+            elif st == "thickness":
+                th = 1.7
+                wf.thickness = th  # the model is observed by the simulation: K and F follow
             K, F = observe()
             Kr, Fr = reference()
+            Kr, Fr = Kr * th, Fr * th
             obs += [Kr, Fr]
             for nm, a, b in (("K", K, Kr), ("F", F, Fr)):
                 err = relerr(a, b)
@@ -359,9 +373,45 @@ def _run_moved(case):
             "outcome": "agree" if not v else "violation", "transitions": len(obs)}
 
 
+def _vec2_cases(tier):
+    """a vector field with FEWER components than the space dimension (2 components on 3D elements): u.v and grad(u):grad(v)"""
+    ets = ["TETRA4", "HEXA8", "PRISM6"] if tier == "quick" else list(Z.TYPES_3D)
+    return [{"kind": "vec2", "elemType": et, "term": term} for et in ets for term in ("mass", "grad")]
+
+
+def _run_vec2(case):
+    from EasyFEA.FEM import BiLinearForm, Field, Operators
+
+    et, term = case["elemType"], case["term"]
+    key = dict(kind="vec2", elemType=et, term=term)
+    mesh = _zoo(et, "affine").build(with_boundary=False)
+    g = mesh.groupElem
+    mt = _matrix_type("mass" if term == "mass" else "rigi")
+    fld = Field(g, 2, mt)
+    if term == "mass":
+        form, scal = BiLinearForm(lambda u, w: 1.3 * u.dot(w)), 1.3 * np.asarray(Operators.Bilinear.UV(g, 1.0, 1, mt), dtype=float)
+    else:
+        form, scal = BiLinearForm(lambda u, w: 0.7 * u.grad.ddot(w.grad)), 0.7 * np.asarray(Operators.Bilinear.GradUGradV(g, 1.0, mt), dtype=float)
+    v = []
+    try:
+        got = np.asarray(form.Integrate_e(fld), dtype=float)
+    except Exception as err:
+        return {"violations": [viol("form_raises", f"2-component field on {et}, {term}: Integrate_e raised {type(err).__name__}: {str(err)[:160]}", error=type(err).__name__, **key)],
+                "fingerprint": fp("vec2raise", et, term), "nontrivial": True, "outcome": "raises", "transitions": 1}
+    nPe = g.nPe
+    want = np.zeros((g.Ne, 2 * nPe, 2 * nPe))
+    for a in range(2):
+        want[:, a::2, a::2] = scal  # kron(scalar operator, I_2): component a of node i is local dof 2 i + a
+    sc = float(np.abs(want).max())
+    err = np.abs(got - want).max() / sc if got.shape == want.shape else np.inf
+    if err > TOL:
+        v.append(viol("element_arrays", f"2-component field on {et} ({g.dim}D elements), {term}: Integrate_e differs from kron(scalar operator, I_2), rel err {err:.2e}", **key))
+    return {"violations": v, "fingerprint": fp("vec2", et, term, want), "nontrivial": True, "outcome": "agree" if not v else "violation", "transitions": 1}
+
+
 def cases(tier, seed):
     out = (_single_cases(tier) + _pair_cases(tier) + _linear_cases(tier) + _assemble_cases(tier) + _simu_cases(tier) + _nonsym_cases(tier)
-           + _moved_cases(tier))
+           + _moved_cases(tier) + _vec2_cases(tier))
     # ordering only (the set is unchanged): the runner hands out chunks of 8 consecutive cases; deal the cases, longest first,
     # round-robin into the chunks so that every chunk costs about the same, and put the cheap ones first inside a chunk
     out.sort(key=lambda c: -_est(c))
